@@ -196,6 +196,9 @@ class VerifyEnv:
         return [(st, outcome)]
 
     # ---- calls -----------------------------------------------------------------------------------------
+    def abstract_registry(self):
+        return REGISTRY
+
     def may_inline(self, qual):
         return qual in INLINE
 
